@@ -480,7 +480,10 @@ def fixed_groups() -> list[tuple[str, ...]]:
     g += [("my-app", "my_app", "MY-APP"), ("app", "App", "APP"), ("ab", "a_", "a%"), ("1app", "_1app"), ("", "_default", " "),
           ("a", "idx_" + own_prefix("a") + "__broker_message_queue"), ("x'; DROP TABLE y;--", 'x"; DROP TABLE y;--'),
           ("a", own_prefix("a")), ("٣", "3", "_3"), ("a_b", "a__b", "a_b_"), ("sqlite", "_sqlite", "SQLite"),
-          ("sqlite.db", own_prefix("sqlite.db") + "__broker")]
+          ("sqlite.db", own_prefix("sqlite.db") + "__broker"),
+          # different strings that Unicode calls compatible / canonically equivalent (superscripts, full-width letters and digits, circled
+          # digits, composed vs decomposed accents): still different application ids
+          ("shop\u00b2", "shop2"), ("\uff41pp", "app"), ("tenant\u2460", "tenant1"), ("caf\u00e9", "cafe\u0301"), ("\uff13", "3", "\u00b3")]
     return g
 
 
